@@ -50,7 +50,7 @@ checks = {
    text="repository part: all histories under a synthetic split table (required split at height 3, foreign splits at 2 and 3; forks created below and grown through the split heights; foreign split headers offered in every state with known and unknown parents): no header but the required one is ever held at the required height on any branch, foreign split headers always answered wrong-chain; plus the real mainnet table on the real 556000-556800 chain (BSV accepted, BCH / arbitrary headers refused at 556767 on the main chain and on forks started at 556765-556767, published constants, verify-only locator). Peer part: BFS over message histories (version/verack in every order and repetition, 8 kinds of headers replies, other letters) on a real node, full and verify-only, starting from a genesis-only repository and from one that already knows the first headers of the reply: Verified()/IsReady() iff the first header of the first headers message after handshake completion is the BSV split header, otherwise disconnected",
    note="peer part: node runs free on an in-memory connection (scheduling inside the node not enumerated; violations must reproduce 3/3); the BTC split header is not available offline, BTC is covered through the synthetic table and the constants check",
    tech="explicit-state model checking of the implementation (header repository BFS with reference model; message-history BFS on a real node) and stateless model checking (exhaustive schedule enumeration under a cooperative scheduler) of several connections verified at the same time"),
- "C13": dict(engine="netmc", cat="model_checking", ref="DESIGN.md 5, 7 C13",
+ "C13": dict(engine="netmc+schedmc", cat="model_checking", ref="DESIGN.md 5, 7 C13",
    text="BFS over all message histories (30 letters: handshake messages in any order/repetition, headers of 8 kinds, addr, inv, tx, block, extended messages, getaddr, protoconf, reject, unknown commands...) from connect and from handshake-complete, for full nodes with and without tx manager and verify-only nodes registered with a NodeManager, also with a repository that knows no chain split points, and with a framed headers message followed by the unframed payload of a verifying reply: while Verified() is false no ProcessHeader / peer-book Add,UpdateScore / tx-manager entry / processor call may be recorded by the spies, the node may only have sent version, verack, ping, pong, protoconf and one getheaders, and NodeManager requests must not be routed through it; verify-only nodes disconnect right after successful verification. Manager part: 1-3 connections registered with one NodeManager, each peer in one of 5 protocol states (silent, version only, handshake complete, handshake complete + headers, verified), every sequence of up to 3 (thorough 4) RequestHeaders / RequestBlock / SendTx calls: no getheaders beyond the connection's own verification request, no getdata, no tx and no block request may reach a connection whose peer is not verified. Stalled-peer part: the peer stops reading (the node's writes block) before the version, the verack, the verifying reply or after it, followed by every sequence of up to 2 further messages, for verify-only and full nodes: a verify-only connection still disconnects at once and passes nothing on",
    note="node runs free on an in-memory connection; oracles are spy observations (conclusive when they fire); state key = hooked node dump + spy counters + sent-command counts",
    tech="explicit-state model checking of the implementation (BFS over message histories, state de-duplication by hooked node dump)"),
@@ -137,6 +137,15 @@ extra11 = {
  "C15": "; two further stages (before / after the handshake) on a repository without chain split points (any network but mainnet: empty verification locator)",
  "C17": "; first starts through Load with a configured list that repeats a hash or holds two, configured hashes unmarked like any other, one configuration value handed to every instance of a history, the configured list merged again at every restart",
 }
+# additions of seed round 13
+extra13 = {
+ "C02": "; marks at 145 / 146 / 147 headers above the lowest header in memory",
+ "C05": "; a source that stays silent past the two-minute start timeout and starts to deliver after 150 s, and a started download that stalls past the one-hour download timeout (stream ends after 4000 s), each with another source serving the block meanwhile",
+ "C06": "; deliveries that arrive before the processor is attached (it is attached, and Run started, when the peers are done)",
+ "C07": "; fork-depth limits 1 and 2 with a fork that stays alive while the best chain grows past it and then overtakes (grow operations count as submissions)",
+ "C13": "; scheduler part (schedmc): the real BitcoinNode.run of a verify-only node under the controlled scheduler with the verifying reply and addr / headers messages behind it in the connection at once - in every interleaving up to 1 (thorough 2) preemptions nothing behind the reply reaches the header repository or the address book",
+ "C15": "; a ready peer on a repository with proof-of-work checking off receives every ordered triple of seven short universe header chains as three well-formed headers messages (reorganisations to child, parent, sibling and cousin branches inside the handler goroutine)",
+}
 # additions of seed round 12
 extra12 = {
  "C01": "; a long side branch that stays behind with a branch of its own, across a restart that keeps less than the outer fork depth, the inner one then overtaking; headers accepted after the latest prune count as held wherever they hang",
@@ -151,6 +160,8 @@ extra12 = {
  "C16": "; no source at all (the manager gives up by itself) with one and two requests in the quick tier",
 }
 for k, v in extra12.items():
+    checks[k]["text"] += v
+for k, v in extra13.items():
     checks[k]["text"] += v
 for k, v in extra.items():
     checks[k]["text"] += v
